@@ -134,7 +134,7 @@ def name_str(b, n):
     return b if n == 0 else "%s-%d" % (b, n)
 
 
-MISMATCH_DETAILS = {"m0": [], "m1": ["diff"], "m2": ["traceback", "Failed expectation"]}
+MISMATCH_DETAILS = {"m0": [], "m1": ["diff"], "m2": ["traceback", "Failed expectation"], "m3": ["traceback-2", "traceback"]}
 FIXTURE_DETAILS = {"f_ok": ["fxd"], "f_tb": ["traceback"], "f_two": ["traceback", "traceback-1"], "f_bad": ["fxd"], "f_cr": ["fxd"], "f_gr": ["fxd"], "f_nest": ["fxd"], "f_nestbad": ["fxd"], "f_nestcr": ["fxd"], "f_classic": ["fxd"]}
 
 
